@@ -11,7 +11,7 @@
    (DB.Set/DB.Delete on the host, first counter value c0 in C0s) and, when LateSub, the
    moment two more subscribers attach, and with exactly MaxFail requests whose ingress
    transaction fails to commit (SyncFail; their operations must be delivered again
-   later).  Each step records what AspenKVOps!FPSeq (the filterPersist rule) computes:
+   later) and MaxReadFail requests in which one digest read fails (SyncReadFail).  Each step records what AspenKVOps!FPSeq (the filterPersist rule) computes:
    accepted / rejected partition in order, the engine afterwards, and the operations each kind of subscriber is shown.
 
    Projection used by the harness: engine digest (ver - base, lh, var) + value token
@@ -21,10 +21,11 @@
 EXTENDS AspenKVOps, TLC, Json, FiniteSetsExt, Randomization
 
 CONSTANTS Host, Remote, Key, GVers, PoolSize, NPools, MaxDup, MaxBatch, NLocal, C0s, LateSub,
-          MaxFail      \* requests per history whose ingress transaction fails to commit (0 or 1)
+          MaxFail,     \* requests per history whose ingress transaction fails to commit (0 or 1)
+          MaxReadFail  \* requests per history in which ONE digest read of the transaction fails (0 or 1)
 
-VARIABLES pool, rem, extra, e, c, locals, late, delivered, fails, hist
-gvars == <<pool, rem, extra, e, c, locals, late, delivered, fails, hist>>
+VARIABLES pool, rem, extra, e, c, locals, late, delivered, fails, rfails, hist
+gvars == <<pool, rem, extra, e, c, locals, late, delivered, fails, rfails, hist>>
 
 Universe == [k : Key, ver : GVers, lh : Remote, var : {"set", "del"}]
 ValidPool(P) == \A a, b \in P : (a.k = b.k /\ a.ver = b.ver /\ a.lh = b.lh) => a = b
@@ -46,6 +47,7 @@ GInit ==
     /\ late = FALSE
     /\ delivered = {}
     /\ fails = MaxFail
+    /\ rfails = MaxReadFail
     /\ hist = <<[a |-> "init", host |-> Host, c0 |-> c, late |-> LateSub]>>
 
 (* Deliver one TxRequest.  First deliveries use `rem`, re-deliveries of an operation
@@ -64,7 +66,7 @@ Sync(b) ==
        /\ delivered' = delivered \cup SeqToSet(b)
        /\ hist' = Append(hist, [a |-> "sync", from |-> b[1].lh, ops |-> b, acc |-> r.acc,
                                 rej |-> r.rej, eng |-> r.eng, p |-> r.acc, f |-> r.acc])
-       /\ UNCHANGED <<pool, c, locals, late, fails>>
+       /\ UNCHANGED <<pool, c, locals, late, fails, rfails>>
 
 (* A TxRequest whose ingress transaction FAILS TO COMMIT (storage fault; the harness arms a
    fault-injecting engine wrapper for exactly this commit).  filter_persist.go as written:
@@ -84,7 +86,40 @@ SyncFail(b) ==
        /\ Sum(pool) <= extra                \* a request Sync could also have delivered
        /\ hist' = Append(hist, [a |-> "syncfail", from |-> b[1].lh, ops |-> b, acc |-> <<>>,
                                 rej |-> r.rej, eng |-> e, p |-> <<>>, f |-> <<>>])
-       /\ UNCHANGED <<pool, rem, extra, e, c, locals, late, delivered>>
+       /\ UNCHANGED <<pool, rem, extra, e, c, locals, late, delivered, rfails>>
+
+(* A TxRequest during whose ingress transaction the digest READ of the operation at position
+   `i` fails with a transient error that is not "not found" (storage fault; the harness arms
+   the engine wrapper for exactly that Get).  filter_persist.go as written: supersedes returns
+   (false, err), the caller logs the error and treats the operation as NOT superseding - it
+   is rejected (and fed back), nothing of it is applied, nothing of it is shown; the other
+   operations of the request are handled normally and the transaction commits.  The
+   operation at `i` counts as not delivered by this request.                              *)
+RECURSIVE FPSeqF(_, _, _, _, _, _)
+FPSeqF(en, ops, j, i, acc, rej) ==
+    IF j > Len(ops) THEN [eng |-> en, acc |-> acc, rej |-> rej]
+    ELSE LET o == ops[j] IN
+         IF j # i /\ Supersedes(o, en[o.k])
+         THEN FPSeqF([en EXCEPT ![o.k] = Dig(o)], ops, j + 1, i, Append(acc, o), rej)
+         ELSE FPSeqF(en, ops, j + 1, i, acc, Append(rej, o))
+SyncReadFail(b, i) ==
+    LET rest == [j \in 1..(Len(b) - 1) |-> IF j < i THEN b[j] ELSE b[j + 1]]
+        used(o) == Count(rest, o)
+        over == [o \in pool |-> IF used(o) > rem[o] THEN used(o) - rem[o] ELSE 0]
+        RECURSIVE Sum(_)
+        Sum(S) == IF S = {} THEN 0 ELSE LET x == CHOOSE x \in S : TRUE IN over[x] + Sum(S \ {x})
+        need == Sum(pool)
+        r == FPSeqF(e, b, 1, i, <<>>, <<>>)
+    IN /\ rfails > 0 /\ rfails' = rfails - 1
+       /\ i \in 1..Len(b)
+       /\ need <= extra
+       /\ extra' = extra - need
+       /\ rem' = [o \in pool |-> IF used(o) >= rem[o] THEN 0 ELSE rem[o] - used(o)]
+       /\ e' = r.eng
+       /\ delivered' = delivered \cup SeqToSet(rest)
+       /\ hist' = Append(hist, [a |-> "syncread", from |-> b[1].lh, ops |-> b, failat |-> i, acc |-> r.acc,
+                                rej |-> r.rej, eng |-> r.eng, p |-> r.acc, f |-> r.acc])
+       /\ UNCHANGED <<pool, c, locals, late, fails>>
 
 Local(k, var) ==
     /\ locals > 0 /\ locals' = locals - 1
@@ -99,18 +134,18 @@ Local(k, var) ==
        ELSE /\ hist' = Append(hist, [a |-> "local", k |-> k, var |-> var, res |-> "forward",
                                      ver |-> 0, to |-> at, eng |-> e, p |-> <<>>, f |-> <<>>])
             /\ UNCHANGED <<c, e, delivered>>
-    /\ UNCHANGED <<pool, rem, extra, late, fails>>
+    /\ UNCHANGED <<pool, rem, extra, late, fails, rfails>>
 
 SubLate ==
     /\ LateSub /\ ~late /\ late' = TRUE
     /\ hist' = Append(hist, [a |-> "sub"])
-    /\ UNCHANGED <<pool, rem, extra, e, c, locals, delivered, fails>>
+    /\ UNCHANGED <<pool, rem, extra, e, c, locals, delivered, fails, rfails>>
 
-Terminal == (\A o \in pool : rem[o] = 0) /\ extra = 0 /\ locals = 0 /\ (LateSub => late) /\ fails = 0
+Terminal == (\A o \in pool : rem[o] = 0) /\ extra = 0 /\ locals = 0 /\ (LateSub => late) /\ fails = 0 /\ rfails = 0
 
 GNext ==
     /\ ~Terminal
-    /\ \/ \E b \in Batches : Sync(b) \/ SyncFail(b)
+    /\ \/ \E b \in Batches : Sync(b) \/ SyncFail(b) \/ (\E i \in 1..Len(b) : SyncReadFail(b, i))
        \/ \E k \in Key, var \in {"set", "del"} : Local(k, var)
        \/ SubLate
 
